@@ -117,6 +117,12 @@ func genContent(r *core.Rand, ext string) string {
 		return sampleSized(kind, r.Range(2000, 90000))
 	case 3:
 		return sampleSized(kind, r.Range(100, 900))
+	case 4:
+		if kind == "html" {
+			// text that looks like template syntax: in a plain .html file it is ordinary text, in a template type the
+			// delimiters are kept verbatim
+			return "<!doctype html>\n<title> {{  .Title  }} </title>\n<p class=\"{{ .Class }}\"> hello   {{  user.name   }}  <b> {{if  .X}} x {{end}} </b> </p>\n<?php  echo   1 ; ?>\n<p> <%=  name   %> </p>\n"
+		}
 	}
 	return cliSample[kind]
 }
@@ -416,6 +422,12 @@ func c19Fixed() []c19Case {
 	cs = append(cs, c19Case{Name: "stale-longer-output-dir", Files: stale, Inv: cliInv{Inputs: []string{"src/"}, Recursive: true, Output: "out/"}})
 	cs = append(cs, c19Case{Name: "stale-longer-output-sync", Files: stale, Inv: cliInv{Inputs: []string{"src/"}, Recursive: true, Sync: true, Output: "out/"}})
 	cs = append(cs, c19Case{Name: "stale-longer-output-bundle", Files: stale, Inv: cliInv{Inputs: []string{"src/app.js", "src/app.js"}, Bundle: true, Output: "bundle.js"}})
+	tmplText := "<!doctype html>\n<title> {{  .Title  }} </title>\n<p> hello   {{  user.name   }}  <b> {{if  .X}} x {{end}} </b> </p>\n<?php  echo   1 ; ?>\n"
+	tmplTree := []treeFile{{Path: "t/page.html", Data: tmplText}, {Path: "t/page.htm", Data: tmplText}, {Path: "t/page.tmpl", Data: tmplText}, {Path: "t/page.php", Data: tmplText}, {Path: "t/page.vue", Data: tmplText}}
+	cs = append(cs, c19Case{Name: "template-syntax-in-plain-html-dir", Files: tmplTree, Inv: cliInv{Inputs: []string{"t/"}, Recursive: true, Output: "out/"}})
+	cs = append(cs, c19Case{Name: "template-syntax-in-plain-html-file", Files: tmplTree, Inv: cliInv{Inputs: []string{"t/page.html"}}})
+	cs = append(cs, c19Case{Name: "template-syntax-typed-html", Files: tmplTree, Inv: cliInv{Inputs: []string{"t/page.tmpl"}, Type: "html"}})
+	cs = append(cs, c19Case{Name: "template-syntax-stdin-html", Files: tmplTree, Inv: cliInv{Stdin: &tmplText, Type: "html"}})
 	add("many-to-stdout-rejected", cliInv{Inputs: []string{"src/app.js", "src/app.css"}})
 	add("flags-js", cliInv{Inputs: []string{"src/app.js"}, Flags: []string{"--js-keep-var-names"}})
 	add("flags-html", cliInv{Inputs: []string{"src/app.html"}, Flags: []string{"--html-keep-document-tags", "--html-keep-end-tags"}})
